@@ -420,9 +420,8 @@ Definition wok (s : state) (x : waiter) : Prop :=
                        disc_coming s (kconn (w_key x))
       | WHciCommand => lost s = false /\ resp_coming s (w_id x)
       end
-  | Issuing => late_kind x /\ mem (kconn (w_key x)) (dev s) = true /\ lost s = false /\
-               resp_coming s (w_id x)
-  | Responded => late_kind x /\ mem (kconn (w_key x)) (dev s) = true /\ lost s = false
+  | Issuing => late_kind x /\ lost s = false /\ resp_coming s (w_id x)
+  | Responded => late_kind x      (* its task is about to run: it registers or is cancelled *)
   end.
 
 Definition winv (s : state) : Prop := Forall (wok s) (waiters s).
@@ -489,15 +488,64 @@ Qed.
 Lemma in_snoc_other : forall (A : Type) (a b : A) l, In a l -> In a (l ++ [b]).
 Proof. intros. apply in_or_app. now left. Qed.
 
-Lemma winv_step : forall tbl s o,
-  tinv s -> winv s -> step_race_free s o = true -> winv (step tbl s o).
+
+Lemma late_kind_release : forall h x, late_kind x -> late_kind (release h x).
+Proof. intros h x (hk & Ek & Hc). exists hk. rewrite release_kind. now split. Qed.
+
+Lemma wok_release_own : forall tbl h s q x,
+  c2h s = EDisc h :: q -> (kconn (w_key x) =? h) = true -> wok s x ->
+  wok (fanout tbl h (upd s (ctl s) q (h2c s) (waiters s))) (release h x).
 Proof.
-  intros tbl s o HT H Hrf. pose proof HT as (Hdh & Hrep & _).
-  unfold step_race_free in Hrf. unfold step. destruct (lost s) eqn:L.
+  intros tbl h s q x Eq E Hx.
+  assert (Hresp : resp_coming s (w_id x) ->
+                  resp_coming (fanout tbl h (upd s (ctl s) q (h2c s) (waiters s))) (w_id (release h x))).
+  { unfold resp_coming. rewrite release_id, fanout_h2c, fanout_c2h. cbn [upd h2c c2h]. rewrite Eq.
+    intros [?|[?|?]]; [now left|discriminate|now right]. }
+  pose proof (release_same h x E) as Hst.
+  unfold wok in *. rewrite release_kind, release_key.
+  destruct (w_st x) eqn:Es.
+  - destruct (w_kind x) eqn:Ek; rewrite Hst.
+    + destruct Hx as [Hc _]. now rewrite Hc.
+    + exact I.
+    + exact I.
+    + rewrite fanout_lost. cbn [upd lost]. destruct Hx as [Hl Hr]. split; [exact Hl|now apply Hresp].
+    + destruct Hx as [Hc _]. now rewrite Hc.
+  - assert (Hst' : w_st (release h x) = Issuing) by (rewrite Hst; destruct (w_kind x); reflexivity).
+    rewrite Hst'. destruct Hx as (Hlk & Hl & Hr). rewrite fanout_lost. cbn [upd lost].
+    repeat split; auto. now apply late_kind_release.
+  - assert (Hst' : w_st (release h x) = Responded) by (rewrite Hst; destruct (w_kind x); reflexivity).
+    rewrite Hst'. now apply late_kind_release.
+  - destruct Hx.
+  - assert (Hst' : w_st (release h x) = Done o) by (rewrite Hst; destruct (w_kind x); reflexivity).
+    rewrite Hst'. exact I.
+Qed.
+
+Lemma wok_resume : forall s ws w x,
+  wok s x -> wok (upd s (ctl s) (c2h s) (h2c s) ws) (if w_id x =? w then on_resume (dev s) x else x).
+Proof.
+  intros s ws w x Hx.
+  assert (Hx' : wok (upd s (ctl s) (c2h s) (h2c s) ws) x).
+  { apply (wok_transfer s _ x); cbn [upd lost dev h2c c2h]; auto. }
+  destruct (w_id x =? w); [|exact Hx'].
+  unfold on_resume.
+  destruct (w_st x) eqn:Es; try exact Hx'.
+  destruct (w_kind x) eqn:Ek; try exact Hx'.
+  unfold wok in Hx. rewrite Es in Hx. destruct Hx as (hk' & Ek' & Hc).
+  rewrite Ek in Ek'. injection Ek' as <-.
+  destruct (mem (kconn (w_key x)) (dev s)) eqn:Em.
+  - unfold wok. cbn [set_st w_st w_kind w_key upd dev]. rewrite Ek. now split.
+  - unfold wok. cbn [set_st w_st]. exact I.
+Qed.
+
+Lemma winv_step : forall tbl s o, tinv s -> winv s -> winv (step tbl s o).
+Proof.
+  intros tbl s o HT H. pose proof HT as (Hdh & Hrep & _).
+  unfold step. destruct (lost s) eqn:L.
   - (* detached *)
     destruct o; try exact H.
-    eapply (winv_map s _ (on_tick (dev s))); [reflexivity| |exact H].
-    intros x _ Hx. now apply wok_tick.
+    + eapply winv_map; [reflexivity| |exact H]. intros x _ Hx. cbn beta. now apply wok_resume.
+    + eapply (winv_map s _ (on_tick (dev s))); [reflexivity| |exact H].
+      intros x _ Hx. now apply wok_tick.
   - specialize (Hrep eq_refl).
     destruct o.
     + (* Establish *) destruct (mem h (ctl s)); [exact H|].
@@ -570,30 +618,11 @@ Proof.
         -- unfold disc_coming; cbn [h2c c2h]. rewrite Eq. intros [?|[?|?]] _ _; [now left|discriminate|now right].
         -- unfold resp_coming; cbn [h2c c2h]. rewrite Eq. intros [?|[?|?]] _; [now left|discriminate|now right].
       * (* EDisc *)
-        rewrite ?Eq in Hrf. apply negb_true_iff in Hrf.
         destruct (mem h (host s)) eqn:Eh.
         -- eapply (winv_map s _ (release h)); [now rewrite fanout_waiters| |exact H].
            intros x Hin Hx.
            destruct (kconn (w_key x) =? h) eqn:E.
-           ++ (* its own connection *)
-              assert (Hlate : late_on h x = false).
-              { destruct (late_on h x) eqn:El; [|reflexivity].
-                assert (existsb (late_on h) (waiters s) = true) by (apply existsb_exists; eauto).
-                congruence. }
-              unfold late_on in Hlate. rewrite E in Hlate.
-              unfold wok. rewrite (release_same h x E), release_kind, release_key, release_id.
-              unfold wok in Hx.
-              destruct (w_st x) eqn:Es; try discriminate; try exact Hx.
-              destruct (w_kind x) eqn:Ek.
-              ** destruct Hx as [Hc _]. now rewrite Hc.
-              ** exact I.
-              ** exact I.
-              ** unfold resp_coming in *. rewrite fanout_lost, fanout_h2c, fanout_c2h.
-                 cbn [upd lost h2c c2h].
-                 destruct Hx as [Hl [Hr|Hr]]; (split; [exact Hl|]).
-                 --- now left.
-                 --- right. rewrite Eq in Hr. destruct Hr as [?|?]; [discriminate|assumption].
-              ** destruct Hx as [Hc _]. now rewrite Hc.
+           ++ now apply wok_release_own.
            ++ rewrite (release_other h x E).
               apply (wok_transfer s _ x); rewrite ?fanout_dev, ?fanout_lost, ?fanout_h2c, ?fanout_c2h;
                 cbn [upd lost dev h2c c2h]; auto.
@@ -624,10 +653,10 @@ Proof.
                 try (apply Hgen; intros [?|?]; congruence).
               unfold wok; cbn. exact I.
            ++ unfold wok in Hx. rewrite Es in Hx.
-              destruct Hx as ((hk & Ek & Hc) & Hm & Hl & _). rewrite Ek.
+              destruct Hx as ((hk & Ek & Hc) & Hl & _). rewrite Ek.
               unfold wok; cbn [set_st w_st w_kind w_key w_id upd lost dev h2c c2h].
-              repeat split; auto. exists hk. now split.
-           ++ unfold wok in Hx. rewrite Es in Hx. destruct Hx as ((hk & Ek & Hc) & _).
+              exists hk. now split.
+           ++ unfold wok in Hx. rewrite Es in Hx. destruct Hx as (hk & Ek & Hc).
               apply Hgen. intros [?|?]; congruence.
            ++ unfold wok in Hx. rewrite Es in Hx. destruct Hx.
            ++ unfold wok. rewrite Es. exact I.
@@ -667,18 +696,8 @@ Proof.
            ++ now left.
            ++ right. now apply in_snoc_other.
     + (* Resume *)
-      eapply winv_map; [reflexivity| |exact H].
-      intros x _ Hx. cbn beta.
-      assert (Hx' : forall ws, wok (upd s (ctl s) (c2h s) (h2c s) ws) x).
-      { intros ws. apply (wok_transfer s _ x); cbn [upd lost dev h2c c2h]; auto. }
-      destruct (w_id x =? w); [|apply Hx'].
-      destruct (w_st x) eqn:Es; try apply Hx'.
-      destruct (w_kind x) eqn:Ek; try apply Hx'.
-      unfold wok in Hx. rewrite Es in Hx. destruct Hx as ((hk' & Ek' & Hc) & Hm & Hl).
-      rewrite Hm. unfold wok. cbn [set_st w_st w_kind w_key upd dev]. rewrite Ek.
-      rewrite Ek in Ek'. injection Ek' as <-. now split.
+      eapply winv_map; [reflexivity| |exact H]. intros x _ Hx. cbn beta. now apply wok_resume.
     + (* Loss *)
-      apply negb_true_iff in Hrf.
       eapply (winv_map s _ (fun x => release_all (host s) (on_loss x))).
       { cbn [waiters].
         change (fold_left (fun a h => fanout tbl h a) (host s) ?x) with (fan_all tbl (host s) x).
@@ -703,9 +722,10 @@ Proof.
            ++ unfold releasable. now rewrite Es, Ek.
            ++ now rewrite <- Hdh.
       * destruct Hx as ((hk & Ek & _) & _). rewrite Ek. apply Hdone. now rewrite release_all_done.
-      * assert (existsb is_responded (waiters s) = true).
-        { apply existsb_exists. exists x. split; [exact Hin|]. unfold is_responded. now rewrite Es. }
-        congruence.
+      * (* Responded: its task has not run yet; it will be cancelled when it does *)
+        destruct Hx as (hk & Ek & Hc).
+        rewrite release_all_inert; [|unfold releasable; now rewrite Es].
+        unfold wok. rewrite Es. exists hk. now split.
       * destruct Hx.
       * assert (Ex : match w_kind x with WHciCommand => x | WLate _ => x | _ => x end = x)
           by (destruct (w_kind x); reflexivity).
@@ -718,13 +738,6 @@ Qed.
 (* ------------------------------------------------------------------ every history, every cut point *)
 Lemma run_app : forall tbl a b s, run tbl (a ++ b) s = run tbl b (run tbl a s).
 Proof. intros. unfold run. apply fold_left_app. Qed.
-
-Lemma race_free_app : forall tbl a b s,
-  race_free tbl (a ++ b) s = race_free tbl a s && race_free tbl b (run tbl a s).
-Proof.
-  induction a as [|o a IH]; intros b s; cbn [app race_free run fold_left]; [reflexivity|].
-  fold (run tbl a (step tbl s o)). rewrite IH. now rewrite andb_assoc.
-Qed.
 
 Lemma run_tinv : forall tbl ops s, tinv s -> tinv (run tbl ops s).
 Proof.
@@ -739,12 +752,10 @@ Proof.
   apply IH; [exact Ha|]. now apply rinv_step.
 Qed.
 
-Lemma run_winv : forall tbl ops s,
-  tinv s -> winv s -> race_free tbl ops s = true -> winv (run tbl ops s).
+Lemma run_winv : forall tbl ops s, tinv s -> winv s -> winv (run tbl ops s).
 Proof.
-  induction ops as [|o ops IH]; intros s HT H Hrf; [exact H|]. cbn [run fold_left].
-  cbn [race_free] in Hrf. apply andb_true_iff in Hrf as [H1 H2].
-  apply IH; [now apply tinv_step|now apply winv_step|exact H2].
+  induction ops as [|o ops IH]; intros s HT H; [exact H|]. cbn [run fold_left].
+  apply IH; [now apply tinv_step|now apply winv_step].
 Qed.
 
 (* --- layers agree *)
@@ -803,8 +814,15 @@ Qed.
 
 (* --- no waiter left *)
 Theorem waiters_cut : forall tbl ops,
-  race_free tbl ops init = true -> Forall (wok (run tbl ops init)) (waiters (run tbl ops init)).
-Proof. intros tbl ops Hrf. exact (run_winv tbl ops init tinv_init winv_init Hrf). Qed.
+  Forall (wok (run tbl ops init)) (waiters (run tbl ops init)).
+Proof. intros tbl ops. exact (run_winv tbl ops init tinv_init winv_init). Qed.
+
+Theorem never_hung : forall tbl ops x,
+  In x (waiters (run tbl ops init)) -> w_st x <> Hung.
+Proof.
+  intros tbl ops x Hin E. pose proof (proj1 (Forall_forall _ _) (waiters_cut tbl ops) x Hin) as H.
+  unfold wok in H. now rewrite E in H.
+Qed.
 
 Lemma tick_timer_only : forall tbl s x,
   In x (waiters (step tbl s Tick)) -> w_st x = Pending -> w_kind x = WTimerOnly ->
@@ -822,18 +840,20 @@ Proof.
 Qed.
 
 Theorem no_waiter_left : forall tbl ops,
-  race_free tbl (ops ++ [Tick]) init = true ->
   let s := run tbl (ops ++ [Tick]) init in
-  quiescent s = true ->
+  settled s = true ->
   Forall (fun x => live_waiter (dev s) x = true) (waiters s).
 Proof.
-  intros tbl ops Hrf s Hq.
-  pose proof (waiters_cut tbl (ops ++ [Tick]) Hrf) as Hw. fold s in Hw.
+  intros tbl ops s Hs.
+  pose proof (waiters_cut tbl (ops ++ [Tick])) as Hw. fold s in Hw.
+  unfold settled in Hs. apply andb_true_iff in Hs as [Hq Hnr].
   apply Forall_forall. intros x Hin.
   pose proof (proj1 (Forall_forall _ _) Hw x Hin) as Hx.
+  pose proof (proj1 (forallb_forall _ _) Hnr x Hin) as Hr.
   unfold quiescent in Hq.
   destruct (c2h s) eqn:Ec; [|discriminate]. destruct (h2c s) eqn:Eh; [|discriminate].
   unfold live_waiter. unfold wok, disc_coming, resp_coming in Hx. rewrite ?Ec, ?Eh in Hx.
+  unfold is_responded in Hr.
   destruct (w_st x) eqn:Es; cbn [is_done orb].
   - destruct (w_kind x) eqn:Ek.
     + apply Hx.
@@ -842,25 +862,71 @@ Proof.
     + destruct Hx as (_ & _ & [[w []]|[]]).
     + destruct Hx as (_ & [[]|[]]).
     + apply Hx.
-  - destruct Hx as (_ & _ & _ & [[]|[]]).
-  - apply Hx.
+  - destruct Hx as (_ & _ & [[]|[]]).
+  - discriminate.
   - destruct Hx.
   - reflexivity.
 Qed.
 
-(* once the transport is lost and the timers have fired, every call has ended *)
+(* once the transport is lost, the loop is idle and the timers have fired, every call has ended *)
 Corollary no_waiter_left_after_transport_loss : forall tbl ops,
-  race_free tbl (ops ++ [Tick]) init = true ->
   let s := run tbl (ops ++ [Tick]) init in
-  lost s = true -> Forall (fun x => is_done (w_st x) = true) (waiters s).
+  lost s = true -> forallb (fun x => negb (is_responded x)) (waiters s) = true ->
+  Forall (fun x => is_done (w_st x) = true) (waiters s).
 Proof.
-  intros tbl ops Hrf s L.
+  intros tbl ops s L Hnr.
   destruct (layers_agree_cut tbl (ops ++ [Tick])) as (Hd & _ & Hl). fold s in Hd, Hl.
   destruct (Hl L) as (Hh & Hc & Hh2).
-  assert (Hq : quiescent s = true) by (unfold quiescent; now rewrite Hc, Hh2).
-  pose proof (no_waiter_left tbl ops Hrf Hq) as H. fold s in H.
+  assert (Hq : settled s = true) by (unfold settled, quiescent; now rewrite Hc, Hh2, Hnr).
+  pose proof (no_waiter_left tbl ops Hq) as H. fold s in H.
   eapply Forall_impl; [|exact H]. intros x Hx. unfold live_waiter in Hx.
   rewrite Hd, Hh in Hx. cbn in Hx. now rewrite orb_false_r in Hx.
+Qed.
+
+(* --- end to end: the property, in terms of what the controller holds *)
+Theorem teardown_complete : forall tbl ops,
+  all_cleaned tbl = true ->
+  let s := run tbl (ops ++ [Tick]) init in
+  lost s = false -> settled s = true ->
+  (forall x, mem x (host s) = mem x (ctl s) /\ mem x (dev s) = mem x (ctl s)) /\
+  (forall r k, In (r, k) (regs s) -> mem (kconn k) (ctl s) = true) /\
+  Forall (fun x => is_done (w_st x) = true \/ mem (kconn (w_key x)) (ctl s) = true) (waiters s).
+Proof.
+  intros tbl ops Ha s L Hs.
+  assert (Hq : c2h s = []).
+  { unfold settled, quiescent in Hs. apply andb_true_iff in Hs as [Hq _].
+    destruct (c2h s); [reflexivity|discriminate]. }
+  pose proof (layers_agree tbl (ops ++ [Tick]) L Hq) as Hag. fold s in Hag.
+  split; [exact Hag|]. split.
+  - intros r k Hin. rewrite <- (proj2 (Hag (kconn k))).
+    exact (no_stale_state tbl (ops ++ [Tick]) Ha r k Hin).
+  - pose proof (no_waiter_left tbl ops Hs) as Hw. fold s in Hw.
+    eapply Forall_impl; [|exact Hw]. intros x Hx. unfold live_waiter in Hx.
+    apply orb_true_iff in Hx as [Hx|Hx]; [now left|right].
+    now rewrite <- (proj2 (Hag (kconn (w_key x)))).
+Qed.
+
+(* --- links are independent: tearing one connection down leaves the others alone *)
+Lemma fanout_regs_keep : forall tbl h s p,
+  In p (regs s) -> (kconn (snd p) =? h) = false -> In p (regs (fanout tbl h s)).
+Proof.
+  intros tbl h s p Hin E. unfold fanout, fanout_order. cbn [fold_left hook_step regs].
+  rewrite !filter_In. rewrite E, !andb_false_r. cbn [negb]. repeat split; auto.
+Qed.
+
+Theorem links_independent : forall tbl h s,
+  (forall p, In p (regs s) -> kconn (snd p) <> h -> In p (regs (fanout tbl h s))) /\
+  (forall x, In x (waiters s) -> kconn (w_key x) <> h -> In x (waiters (fanout tbl h s))) /\
+  (forall c, c <> h -> mem c (dev (fanout tbl h s)) = mem c (dev s) /\
+                       mem c (host (fanout tbl h s)) = mem c (host s)) /\
+  ctl (fanout tbl h s) = ctl s /\ c2h (fanout tbl h s) = c2h s /\ h2c (fanout tbl h s) = h2c s.
+Proof.
+  intros tbl h s. repeat split; try reflexivity.
+  - intros p Hin Hne. apply fanout_regs_keep; [exact Hin|]. now apply Z.eqb_neq.
+  - intros x Hin Hne. rewrite fanout_waiters. apply in_map_iff. exists x. split; [|exact Hin].
+    apply release_other. now apply Z.eqb_neq.
+  - rewrite fanout_dev, mem_remove. apply Z.eqb_neq in H. now rewrite H.
+  - rewrite fanout_host, mem_remove. apply Z.eqb_neq in H. now rewrite H.
 Qed.
 
 (* ------------------------------------------------------------------ the hypotheses are needed *)
@@ -875,25 +941,14 @@ Lemma stale_refuted :
   quiescent s = true /\ mem 1 (dev s) = false /\ In ("x.Leaky.registry"%string, (1, 0)) (regs s).
 Proof. vm_compute. repeat split; try reflexivity. now left. Qed.
 
-(* the link is cut between a command status and the resumption of the task awaiting it *)
-Definition racy_history : list op :=
+(* a task that has not run yet keeps a call pending: [settled] (not only [quiescent]) is needed *)
+Definition unsettled_history : list op :=
   [Establish 1; DeliverC2H; Start 7 (WLate HkConnListeners) (1, 0); DeliverH2C; PeerDisc 1;
-   DeliverC2H; DeliverC2H; Resume 7].
+   DeliverC2H; DeliverC2H].
 
-Lemma late_registration_refuted :
-  race_free model_registries (racy_history ++ [Tick]) init = false /\
-  let s := run model_registries (racy_history ++ [Tick]) init in
-  quiescent s = true /\ mem 1 (dev s) = false /\
-  map (fun x => (w_id x, st_code (w_st x))) (waiters s) = [(7, 3)].
-Proof. vm_compute. repeat split; reflexivity. Qed.
-
-Definition racy_loss_history : list op :=
-  [Establish 1; DeliverC2H; Start 7 (WLate HkConnListeners) (1, 0); DeliverH2C; DeliverC2H; Loss; Resume 7].
-
-Lemma late_registration_loss_refuted :
-  race_free model_registries (racy_loss_history ++ [Tick]) init = false /\
-  let s := run model_registries (racy_loss_history ++ [Tick]) init in
-  lost s = true /\ dev s = [] /\
+Lemma unsettled_refuted :
+  let s := run model_registries (unsettled_history ++ [Tick]) init in
+  quiescent s = true /\ settled s = false /\ mem 1 (dev s) = false /\
   map (fun x => (w_id x, st_code (w_st x))) (waiters s) = [(7, 2)].
 Proof. vm_compute. repeat split; reflexivity. Qed.
 
